@@ -1,6 +1,7 @@
 import RattrDriver.JsonUtil
 import RattrModel.Swaps
 import RattrModel.Spec.PyBind
+import RattrModel.Results
 
 namespace Rattr.Driver.C04
 open Lean Rattr Rattr.Driver
@@ -46,5 +47,38 @@ def handle (payload : Json) : R Json := do
         ("expected", jPairList (Spec.expectedSwaps si sig b)),
         ("expectedLenient", jPairList (Spec.expectedSwapsLenient si sig b))])]
   return Json.mkObj [("swaps", jPairList sw), ("diags", jList (ds.map diagJson)), ("spec", spec)]
+
+/-! op `unbind`: the substitution AS USED for inlining — `unbind_ir_with_call_swaps(ir, swaps)` with
+`swaps` either given (any dict) or computed by `construct_call_swaps` from `sig` + `call`. -/
+
+def parseNames (j : Json) : R (List NameS) := do
+  (← asArr j).mapM fun p => do
+    let (a, b) ← asPair p
+    return { full := str a, base := str b }
+
+def namesJson (l : List NameS) : Json :=
+  jList (l.map (fun n => Json.arr #[Json.str n.full.toS, Json.str n.base.toS]))
+
+def ifaceStr (i : Iface String) : Iface Str :=
+  { posonly := i.posonly.map str, args := i.args.map str, vararg := i.vararg.map str,
+    kwonly := i.kwonly.map str, kwarg := i.kwarg.map str }
+
+def handleUnbind (payload : Json) : R Json := do
+  let sw : Dict Str Str ←
+    match payload.getObjVal? "swaps" with
+    | .ok j => pure ((← asPairList j).map fun (a, b) => (str a, str b))
+    | .error _ => do
+      let sig ← parseSig (← field payload "sig")
+      let call ← parseCall (← field payload "call")
+      let callS : CallArgs Str := { args := call.args.map str, kwargs := call.kwargs.map fun (a, b) => (str a, str b) }
+      pure (Swaps.construct ({ tuple := str "@Tuple", dict := str "@Dict" } : StandIns Str) (ifaceStr sig.iface) callS).1
+  let ir : IrSets := ⟨← parseNames (← field payload "gets"), ← parseNames (← field payload "sets"),
+                      ← parseNames (← field payload "dels")⟩
+  let swJ := jPairList (sw.map fun (a, b) => (a.toS, b.toS))
+  match Results.unbindIr sw ir with
+  | none => return Json.mkObj [("outcome", "never"), ("swaps", swJ)]
+  | some u =>
+    return Json.mkObj [("outcome", "ok"), ("swaps", swJ), ("gets", namesJson u.gets),
+                       ("sets", namesJson u.sets), ("dels", namesJson u.dels)]
 
 end Rattr.Driver.C04
